@@ -525,7 +525,7 @@ def main(argv=None):
     describe = dict(
         level="other",
         rule="(ndmin) makers {tensor, Tensor, astensor} x sources {array, 0-d array, nested list, scalar, tensor, tensor with graph, tensor with grad} x copy, "
-             "ndmin a symbolic integer in [-1, 4]; (table) makers x sources x copy x dtype {None, same, other} x constant; copy/astype on tensors with/without "
+             "ndmin a symbolic integer in [-1, 4]; (table; sources also: transposed / strided / F-ordered arrays, tensor over a transposed array, array.array, memoryview, object with __array__) makers x sources x copy x dtype {None, same, other} x constant; copy/astype on tensors with/without "
              "graph and gradient; creation routines with explicit arguments vs NumPy; non-real dtypes",
         explanation="symbolic part: ndmin is an unbounded-type SymInt restricted to [-1,4]: the comparisons of tensor()/Tensor.__init__ on ndmin fork in the "
                     "engine and each path is compared with numpy.array(..., ndmin=k); the aliasing probe writes fresh SYMBOLS into the source and decides by term "
